@@ -184,6 +184,9 @@ def _work(args):
                         bad = True
                     if bad:
                         cnt('violation')
+                        out.setdefault('viol_tags', {})
+                        vt = '%s [%s]' % (s.get('tag'), st)
+                        out['viol_tags'][vt] = out['viol_tags'].get(vt, 0) + 1
                         if len(out['violations']) < 10:
                             out['violations'].append({'property': prop, 'kind': 'sqldiff', 'config': cfg, 'db': u['db'],
                                                       'stmt': s, 'status': st, 'detail': detail})
@@ -250,6 +253,9 @@ def run(report, units, configs=None, workers=None, timeout=30, chunk=None):
                 report.add_sample(s)
             for e in out['errors']:
                 report.machinery(e)
+            for vt, n in out.get('viol_tags', {}).items():
+                d = report.extra.setdefault('violations_by_tag', {})
+                d[vt] = d.get(vt, 0) + n
             for pk, n in out.get('plans', {}).items():
                 pl = report.extra.setdefault('plans_observed', {})
                 pl[pk] = pl.get(pk, 0) + n
